@@ -56,7 +56,7 @@ def metaLoopH : Nat → Framer → Hpack.Decoder → MetaState → List Nat → 
     Except RErr LoopOut × Hpack.Decoder × Framer × List Nat
   | 0, fr, d, _, _, _, bs, _ => (.error .eof, d, fr, bs)
   | fuel + 1, fr, d, st, frag, ended, bs, done =>
-    if frag.length > 2 * st.remainSize % 4294967296 then (.error (.conn errCodeProtocol), d, fr, bs)
+    if frag.length > 2 * st.remainSize then (.error (.conn errCodeProtocol), d, fr, bs)
     else if st.invalid then (.error (.conn errCodeProtocol), d, fr, bs)
     else
       match hdecWrite d st frag with
